@@ -46,9 +46,12 @@ for sid in ids:
             subprocess.run(["git", "-C", "/repo", "checkout", "--", "."], check=True)
         else:
             subprocess.run(["git", "-C", "/repo", "worktree", "remove", "--force", repo])
+import fcntl
 rp = os.path.join(sd, "RESULTS.json")
-allres = json.load(open(rp)) if os.path.exists(rp) else {}
-allres.update(results)
-json.dump(allres, open(rp, "w"), indent=1, sort_keys=True)
+with open(rp + ".lock", "w") as lk:
+    fcntl.flock(lk, fcntl.LOCK_EX)
+    allres = json.load(open(rp)) if os.path.exists(rp) else {}
+    allres.update(results)
+    json.dump(allres, open(rp, "w"), indent=1, sort_keys=True)
 # evidence of the unchanged tree must be regenerated after this (evidence files were overwritten)
 print("(runs against scratch worktrees write their evidence under build/, not evidence/)")
